@@ -558,6 +558,7 @@ class Gen:
         self.enabled_fams = list(FAMS)
         self.dyn_p = {}
         self.distinct = False     # soak: literals are unique random values, not pool values
+        self.prefer_lit = False   # first-use: literal encodings (their near misses follow)
 
     def fresh_reg(self):
         self.nreg += 1
@@ -579,6 +580,38 @@ class Gen:
 
     def pool_pop(self, i):
         return self.gold_value(["c", "suite.G2ProofOfPossession", "PopProve"], [SKS[i]])
+
+    def pool_z(self, grp, k):
+        """canonical compressed encoding (int for G1, pair of ints for G2) of k*G"""
+        g = self.S.arg_canon(const(OBLS, grp), {})
+        pt = self.gold_value(["f", OBLS, "multiply"], [g, k])
+        if pt is None:
+            return None
+        return self.gold_value(["f", BPC, "compress_" + grp], [pt])
+
+    def z_variant(self, z):
+        """the encoding itself or a close relative: one of the three flag bits of
+        the first word flipped (sign flag = the encoding of -P), the second word's
+        top bits touched, x + 1"""
+        r = self.rng
+        x = r.random()
+        w = z[1][0] if isinstance(z, list) else z
+        if x < 0.4:
+            return z
+        if x < 0.75:
+            w ^= 1 << 381                       # a_flag: the encoding of the negated point
+        elif x < 0.85:
+            w ^= 1 << r.choice([382, 383])
+        elif x < 0.95:
+            w += 1
+        else:
+            w ^= 1 << r.randrange(381)
+        if isinstance(z, list):
+            rest = list(z[1][1:])
+            if r.random() < 0.1 and rest:
+                rest[0] ^= 1 << r.choice([381, 382, 383])
+            return [z[0], [w] + rest]
+        return w
 
     # ---- literals -----------------------------------------------------------
     def rand_bits(self, n):
@@ -665,6 +698,52 @@ class Gen:
         if r.random() < 0.5:
             return bytes([n % 251]) * n
         return bytes(r.getrandbits(8) for _ in range(n))
+
+    def near_lits(self, c):
+        """near misses of a literal canonical value, most telling first: one bit
+        (a flag / top bit) flipped, +-1, one element dropped / swapped ... - what a
+        memo keyed by a lossy digest of its argument (a masked word, a prefix, a
+        length, a sorted copy) cannot tell from the original"""
+        r = self.rng
+        out = []
+        if type(c) is int:
+            if c.bit_length() > 300:
+                out += [c ^ (1 << 381), c ^ (1 << r.choice([382, 383]))]
+            out += [c + 1, c - 1, -c, c ^ (1 << r.randrange(max(1, c.bit_length())))]
+            return out[:2] + r.sample(out[2:], len(out) - 2)
+        if isinstance(c, list) and len(c) == 2 and c[0] in ("bytes", "bytearray"):
+            raw = bytearray(bytes.fromhex(c[1]))
+            if len(raw) in (48, 96):
+                f = bytearray(raw)
+                f[0] ^= 0x20                     # sign flag: the negated point
+                out.append([c[0], bytes(f).hex()])
+            if raw:
+                f = bytearray(raw)
+                self.flip(f)
+                out.append([c[0], bytes(f).hex()])
+                out.append([c[0], bytes(raw[:-1]).hex()])
+            out.append([c[0], bytes(raw + b"\x00").hex()])
+            return out
+        if isinstance(c, list) and len(c) == 2 and c[0] in ("tuple", "list") and c[1]:
+            items = list(c[1])
+            for i in range(min(len(items), 3)):
+                for n in self.near_lits(items[i])[:1]:
+                    out.append([c[0], items[:i] + [n] + items[i + 1:]])
+            if len(items) > 1:
+                out.append([c[0], items[1:] + items[:1]])
+                out.append([c[0], items[:-1]])
+            out.append([c[0], items + items[:1]])
+            return out
+        return out
+
+    def flip(self, raw):
+        """flip one bit of an encoding in place: a third of the time one of the
+        three flag bits of the first byte (0x20 = sign: the negated point)"""
+        r = self.rng
+        if r.random() < 0.35:
+            raw[0] ^= r.choice([0x20, 0x20, 0x40, 0x80])
+        else:
+            raw[r.randrange(len(raw))] ^= 1 << r.randrange(8)
 
     # ---- typed arguments ------------------------------------------------------
     def star(self, b, ty):
@@ -763,6 +842,10 @@ class Gen:
             return self.arg_bytes(b, ty)
         if ty == "sk":
             return self.arg_sk(b)
+        if ty in ("z:G1", "z:G2") and r.random() < (0.85 if self.prefer_lit else 0.45):
+            z = self.pool_z(ty[2:], r.choice([1, 2, 3, 5]))
+            if z is not None:
+                return lit(self.z_variant(z))
         # register-backed types
         if ty.startswith("pt:") and r.random() < 0.04:
             # an argument that is not a curve point: the constant's own x twice
@@ -824,7 +907,7 @@ class Gen:
                 v = self.pool_pk(0)
                 if v is not None:
                     raw = bytearray(bytes.fromhex(v[1]))
-                    raw[r.randrange(48)] ^= 1 << r.randrange(8)
+                    self.flip(raw)
                     return lit(B(raw))
             return lit(B(bytes(r.getrandbits(8) for _ in range(r.choice([48, 48, 47, 49, 0])))))
         if kind == "sig":
@@ -839,7 +922,7 @@ class Gen:
                 v = self.pool_sig("G2Basic", 0, 0)
                 if v is not None:
                     raw = bytearray(bytes.fromhex(v[1]))
-                    raw[r.randrange(96)] ^= 1 << r.randrange(8)
+                    self.flip(raw)
                     return lit(B(raw))
             return lit(B(bytes(r.getrandbits(8) for _ in range(r.choice([96, 96, 95, 97, 48, 0])))))
         v = self.lit_bytes(kind)
@@ -994,7 +1077,7 @@ class Gen:
             return [lit(pk), lit(msg), {"reg": r.choice(regs)}], {}
         elif x < 0.92:
             raw = bytearray(bytes.fromhex(sig[1]))
-            raw[r.randrange(96)] ^= 1 << r.randrange(8)
+            self.flip(raw)
             sig = B(raw)
         else:
             return [self.arg(b, "b:pk"), lit(msg), self.arg(b, "b:sig")], {}
@@ -1062,12 +1145,16 @@ class Gen:
             agg = B(b"")
         msgs = [B(MSGS[j]) for j in js]
         x = r.random()
-        if x < 0.15:
+        if x < 0.12:
             msgs = msgs[:-1]
-        elif x < 0.3:
+        elif x < 0.24:
             agg = sigs[0]
-        elif x < 0.4:
+        elif x < 0.32:
             pks = list(reversed(pks))
+        elif x < 0.5 and len(pks) > 1:
+            # rejected in the middle of the key loop: a bad key after a good one
+            bad = r.choice([B(b"\xc0" + b"\x00" * 47), B(b"\x00" * 48), B(b"\xff" * 48)])
+            pks = pks[:1] + [bad] + pks[2:]
         mk = "list" if r.random() < 0.8 else "tuple"
         return [{mk: [lit(p) for p in pks]}, {mk: [lit(m) for m in msgs]}, lit(agg)], {}
 
@@ -1088,6 +1175,8 @@ class Gen:
             pks = pks[:-1]
         elif x < 0.3:
             msg = B(MSGS[(j + 1) % 3])
+        elif x < 0.42 and len(pks) > 1:
+            pks = pks[:1] + [B(b"\xc0" + b"\x00" * 47)] + pks[2:]
         return [{"list": [lit(p) for p in pks]}, lit(msg), lit(agg)], {}
 
     # ---- programs ----------------------------------------------------------------------
@@ -1350,7 +1439,9 @@ class Scenarios(Gen):
         spec["focus"] = tpl.kind
         self.enable_adhoc(spec, self.adhoc_of_template(tpl))
         b = Builder(self)
+        self.prefer_lit = True
         op1 = b.emit(tpl)
+        self.prefer_lit = False
         k1 = len(b.ops) - 1
         again = dict(op1)
         if "out" in again:
@@ -1374,6 +1465,18 @@ class Scenarios(Gen):
                 if "out" in varied:
                     varied["out"] = b.new_reg(tpl.out)
                 b.ops.append(varied)
+            # near misses of literal arguments (all other arguments unchanged)
+            lits = [p for p in range(npos) if "lit" in op1["args"][p]]
+            for pos in r.sample(lits, min(len(lits), 2 if tpl.cost <= 120 else 1)):
+                for n in self.near_lits(op1["args"][pos]["lit"])[:2 if tpl.cost <= 30 else 1]:
+                    if n == op1["args"][pos]["lit"]:
+                        continue
+                    nm = dict(op1)
+                    nm["args"] = list(op1["args"])
+                    nm["args"][pos] = lit(n)
+                    if "out" in nm:
+                        nm["out"] = b.new_reg(tpl.out)
+                    b.ops.append(nm)
             if tpl.cost <= 150 or r.random() < 0.3:
                 last = dict(op1)
                 if "out" in last:
